@@ -77,7 +77,7 @@ func (c *compiler) toIrType(ddpType ddptypes.Type) ddpIrType {
 		case ddptypes.VARIABLE:
 			return c.ddpanylist
 		default:
-			return c.structTypes[underlying.(*ddptypes.StructType)].listType
+			return c.structIrType(underlying.(*ddptypes.StructType)).listType
 		}
 	} else {
 		switch ddpType {
@@ -98,9 +98,19 @@ func (c *compiler) toIrType(ddpType ddptypes.Type) ddpIrType {
 		case ddptypes.VoidType{}:
 			return c.void
 		default: // struct types
-			return c.structTypes[ddpType.(*ddptypes.StructType)]
+			return c.structIrType(ddpType.(*ddptypes.StructType))
 		}
 	}
+}
+
+// returns the IR type of a struct type
+// a generic instantiation compiled in this module may mention types of the declaring module
+// that this module never imported, those are declared on first use
+func (c *compiler) structIrType(structType *ddptypes.StructType) *ddpIrStructType {
+	if _, exists := c.structTypes[structType]; !exists {
+		c.defineOrDeclareStructType(structType)
+	}
+	return c.structTypes[structType]
 }
 
 // used to handle possible reference parameters
